@@ -50,3 +50,9 @@ Proof. exact set_state_loops_on_inconsistent_options. Qed.
 Theorem C16_run_out_of_fuel_reachable : exists n evs, WF n /\ wf_hist n evs /\ evD_hist n evs /\
   In (NCrash OutOfFuel) (run n evs).
 Proof. exact run_out_of_fuel_reachable. Qed.
+
+(* a first part of termination: from RESTARTING / SHUTTING_DOWN / FINAL the loop needs one transition at most *)
+Theorem C16_set_state_terminates_ending_partial : forall fuel n d orcs now acc, WF n ->
+  (fsm_state n = RESTARTING \/ fsm_state n = SHUTTING_DOWN \/ fsm_state n = FINAL) ->
+  exists r, set_state (S fuel) n d orcs now acc = Ok r.
+Proof. exact set_state_terminates_ending_partial. Qed.
